@@ -61,6 +61,7 @@ type Replay struct {
 	Minimised  bool       `json:"minimised"`
 	Sig        string     `json:"schedule_signature,omitempty"`
 	Native     bool       `json:"native_fallback,omitempty"` // observed under real goroutine scheduling: replay is statistical
+	SimsFirst  bool       `json:"sims_first,omitempty"` // the simulated run came before the sequential reference in its process (first uses happen inside tasks)
 	Trace      []string   `json:"trace,omitempty"`
 	Note       string     `json:"note,omitempty"`
 }
@@ -270,41 +271,21 @@ func runWorker(master uint64, worker, workers, scheds, maxProgs int, budget floa
 			b, _ := json.Marshal(cur)
 			_ = os.WriteFile(outPath+".current", b, 0o644)
 		}
-		writeMarker(-1, RunCfg{Policy: simrt.Policy{Mode: "serial"}})
-		adm := computeAdmissible(w, prep, warm, wseed, 4)
-		st.SeqOrders += adm.orders + w.NumOps()
-		if adm.SeqViolation != nil {
-			v := adm.SeqViolation
-			st.Executions++
-			st.Probes["workloads_rejected_by_sequential_reference"]++
-			if !seenKeys[v.Key()] && seqVerifyBudget > 0 {
-				// A sequential anomaly can be caused by process-wide state that an EARLIER workload of
-				// this process left behind; only a workload that shows it by itself, in a fresh
-				// process, is reported (and is then exactly replayable).
-				seqVerifyBudget--
-				rp := &Replay{Property: "C10", MasterSeed: master, RunIndex: idx, SchedIndex: -1, Workload: w,
-					Run: RunCfg{Policy: simrt.Policy{Mode: "serial"}}, Violation: v, FindingKey: v.Key(), Note: "found by the sequential reference execution (no concurrency needed)"}
-				if probeInChild(rp, outPath) == v.Key() {
-					seenKeys[v.Key()] = true
-					res.Violations = append(res.Violations, rp)
-				} else {
-					st.Probes["sequential_anomaly_not_reproduced_in_fresh_process"]++
-				}
-			}
-			continue
+		// Half of the workloads run their simulated schedules BEFORE the sequential reference is
+		// computed, so that the first use of a type in this process (and with it the first touch of
+		// any process-wide state behind it) happens inside simulated tasks and not on the main
+		// goroutine, whose accesses are ordered before everything the tasks do.
+		simsFirst := simrt.Derive(wseed, 0xf1)%2 == 0 && !nativeFallback()
+		type pendingRun struct {
+			s   int
+			cfg RunCfg
+			pol simrt.Policy
+			r   *RunResult
 		}
-		if adm.SeqDeadlock {
-			v := &Violation{Class: "deadlock", Task: -1, Op: -1, Detail: "a purely sequential execution of this workload on one shared instance blocks forever (a lock is never released)"}
-			res.Violations = append(res.Violations, &Replay{Property: "C10", MasterSeed: master, RunIndex: idx, SchedIndex: -1, Workload: w,
-				Run: RunCfg{Policy: simrt.Policy{Mode: "serial"}}, Violation: v, FindingKey: v.Key(), Note: "found by the sequential reference execution"})
-			st.Executions++
-			goto done
-		}
+		var pend []pendingRun
 		estYields := 0
-		for s := 0; s < scheds; s++ {
-			if s%4 == 3 && time.Since(start).Seconds() > budget {
-				break
-			}
+		stopWorker := false
+		runOne := func(s int) pendingRun {
 			rng := simrt.NewRng(simrt.Derive(wseed, 0x5c, uint64(s)))
 			var pol simrt.Policy
 			if s == 0 {
@@ -336,6 +317,76 @@ func runWorker(master uint64, worker, workers, scheds, maxProgs int, budget floa
 			for k := range siteBits {
 				siteBits[k] |= r.SiteBits[k]
 			}
+			return pendingRun{s, cfg, pol, r}
+		}
+		if simsFirst {
+			st.Probes["workloads_simulated_before_reference"]++
+			for s := 0; s < scheds; s++ {
+				if s%4 == 3 && time.Since(start).Seconds() > budget {
+					break
+				}
+				pr := runOne(s)
+				pend = append(pend, pr)
+				if pr.r.Deadlock || pr.r.Capped {
+					break
+				}
+			}
+		}
+		writeMarker(-1, RunCfg{Policy: simrt.Policy{Mode: "serial"}})
+		var adm *Admissible
+		if len(pend) > 0 && (pend[len(pend)-1].r.Deadlock || pend[len(pend)-1].r.Capped) {
+			adm = &Admissible{} // leaked goroutines: no further executions in this process
+		} else {
+			adm = computeAdmissible(w, prep, warm, wseed, 4)
+			st.SeqOrders += adm.orders + w.NumOps()
+		}
+		if adm.SeqViolation != nil {
+			v := adm.SeqViolation
+			st.Executions++
+			st.Probes["workloads_rejected_by_sequential_reference"]++
+			if !seenKeys[v.Key()] && seqVerifyBudget > 0 {
+				// A sequential anomaly can be caused by process-wide state that an EARLIER workload of
+				// this process left behind; only a workload that shows it by itself, in a fresh
+				// process, is reported (and is then exactly replayable).
+				seqVerifyBudget--
+				rp := &Replay{Property: "C10", MasterSeed: master, RunIndex: idx, SchedIndex: -1, Workload: w,
+					Run: RunCfg{Policy: simrt.Policy{Mode: "serial"}}, Violation: v, FindingKey: v.Key(), Note: "found by the sequential reference execution (no concurrency needed)"}
+				if probeInChild(rp, outPath) == v.Key() {
+					seenKeys[v.Key()] = true
+					res.Violations = append(res.Violations, rp)
+				} else {
+					st.Probes["sequential_anomaly_not_reproduced_in_fresh_process"]++
+				}
+			}
+			// races seen by the simulated runs of this workload are reported all the same
+			for _, pr := range pend {
+				if pr.r.Race == "" {
+					continue
+				}
+				funcs, inRepo := raceFrames(pr.r.Race)
+				rv := &Violation{Class: "data_race", Task: -1, Op: -1, Detail: truncate(pr.r.Race, 6000), Funcs: funcs}
+				if !inRepo {
+					rv.Class = "harness_race"
+				}
+				if !seenKeys[rv.Key()] {
+					seenKeys[rv.Key()] = true
+					fcfg := pr.cfg
+					fcfg.Policy = simrt.Policy{Mode: "forced", Forced: pr.r.Switches}
+					res.Violations = append(res.Violations, &Replay{Property: "C10", MasterSeed: master, RunIndex: idx, SchedIndex: pr.s, Workload: w, Run: fcfg, Violation: rv, FindingKey: rv.Key(),
+						Sig: fmt.Sprintf("%016x", pr.r.Sig), Note: "found under policy " + policyName(pr.pol), SimsFirst: simsFirst})
+				}
+			}
+			continue
+		}
+		if adm.SeqDeadlock {
+			v := &Violation{Class: "deadlock", Task: -1, Op: -1, Detail: "a purely sequential execution of this workload on one shared instance blocks forever (a lock is never released)"}
+			res.Violations = append(res.Violations, &Replay{Property: "C10", MasterSeed: master, RunIndex: idx, SchedIndex: -1, Workload: w,
+				Run: RunCfg{Policy: simrt.Policy{Mode: "serial"}}, Violation: v, FindingKey: v.Key(), Note: "found by the sequential reference execution"})
+			st.Executions++
+			goto done
+		}
+		process := func(pr pendingRun) {
+			s, cfg, pol, r := pr.s, pr.cfg, pr.pol, pr.r
 			vs := judge(w, prep, warm, adm, r, wseed, estYields)
 			if !r.Deadlock && !r.Capped {
 				for _, t := range r.Outcomes {
@@ -405,13 +456,30 @@ func runWorker(master uint64, worker, workers, scheds, maxProgs int, budget floa
 					fcfg := cfg
 					fcfg.Policy = simrt.Policy{Mode: "forced", Forced: r.Switches}
 					rp := &Replay{Property: "C10", MasterSeed: master, RunIndex: idx, SchedIndex: s, Workload: w, Run: fcfg, Violation: v, FindingKey: key,
-						Sig: fmt.Sprintf("%016x", r.Sig), Note: "found under policy " + policyName(pol), Native: nativeFallback()}
+						Sig: fmt.Sprintf("%016x", r.Sig), Note: "found under policy " + policyName(pol), Native: nativeFallback(), SimsFirst: simsFirst}
 					res.Violations = append(res.Violations, rp)
 				}
 			}
 			if r.Deadlock || r.Capped {
 				// parked goroutines cannot be reclaimed: end this worker here
+				stopWorker = true
+			}
+		}
+		for _, pr := range pend {
+			process(pr)
+			if stopWorker {
 				goto done
+			}
+		}
+		if !simsFirst {
+			for s := 0; s < scheds; s++ {
+				if s%4 == 3 && time.Since(start).Seconds() > budget {
+					break
+				}
+				process(runOne(s))
+				if stopWorker {
+					goto done
+				}
 			}
 		}
 	}
@@ -519,6 +587,13 @@ func loadReplay(file string) (*Replay, error) {
 func replayOnce(rp *Replay, attempts int, keepEvents bool) (*Violation, *RunResult) {
 	w := rp.Workload
 	prep, warm := prepareAll(w)
+	want := rp.Violation.Key()
+	var first *RunResult
+	if rp.SimsFirst && rp.Run.Policy.Mode != "serial" || rp.SimsFirst && rp.Violation.Class == "data_race" {
+		// as in the worker that found it: the simulated run comes first, so that first uses of types
+		// (and of process-wide state behind them) happen inside the tasks
+		first = runSim(w, prep, warm, rp.Run, keepEvents)
+	}
 	adm := computeAdmissible(w, prep, warm, 1, 4)
 	if adm.SeqViolation != nil {
 		return adm.SeqViolation, &RunResult{}
@@ -528,9 +603,12 @@ func replayOnce(rp *Replay, attempts int, keepEvents bool) (*Violation, *RunResu
 	}
 	var last *RunResult
 	var other *Violation
-	want := rp.Violation.Key()
 	for a := 0; a < attempts; a++ {
-		r := runSim(w, prep, warm, rp.Run, keepEvents)
+		r := first
+		first = nil
+		if r == nil {
+			r = runSim(w, prep, warm, rp.Run, keepEvents)
+		}
 		last = r
 		for _, v := range judge(w, prep, warm, adm, r, 1, 0) {
 			if v.Key() == want {
